@@ -53,36 +53,80 @@ Proof.
   - apply Qle_bool_false in E. split; [discriminate | intros [H _]; lra].
 Qed.
 
+(* [repair] time_of_vect now answers a `time_outcome`: TimeAxis tm (what used to be Some tm),
+   StepNaN t0 for the one-sample vector [t0] (the library builds Time(t0, nan, 1); the model
+   used to answer None), TimeRejected (what used to be None, minus the one-sample case). *)
+Lemma time_of_vect_from_vect : forall t t0 avg n, time_from_vect t = Some (t0, avg, n) ->
+  time_of_vect t = match time_init t0 avg n with Some tm => TimeAxis tm | None => TimeRejected end.
+Proof.
+  intros t t0 avg n H. destruct t as [|x [|y t]]; try discriminate H.
+  unfold time_of_vect. rewrite H. reflexivity.
+Qed.
+
 (* a linearly spaced stored vector with a step >= 0 is loaded as Time(t0, step, n) ... *)
 Lemma time_of_vect_linspace : forall t0 step n, 2 <= n -> (0 <= step)%Q ->
-  exists t0' avg, time_of_vect (linspaceQ t0 step 0 n) = Some (t0', avg, n) /\
+  exists t0' avg, time_of_vect (linspaceQ t0 step 0 n) = TimeAxis (t0', avg, n) /\
                   (t0' == t0)%Q /\ (avg == step)%Q.
 Proof.
   intros t0 step n Hn Hs. destruct (time_from_vect_linspace t0 step n Hn) as [t0' [avg [H [H1 H2]]]].
-  exists t0', avg. unfold time_of_vect. rewrite H. split; [|now split].
-  apply time_init_Some. split; [|reflexivity]. now rewrite H2.
+  exists t0', avg. rewrite (time_of_vect_from_vect _ _ _ _ H). split; [|now split].
+  assert (E : time_init t0' avg n = Some (t0', avg, n)).
+  { apply time_init_Some. split; [|reflexivity]. now rewrite H2. }
+  now rewrite E.
 Qed.
 
 (* ... and a DECREASING one is rejected (Time.__init__: 'step' must be positive) *)
 Lemma time_of_vect_decreasing : forall t0 step n, 2 <= n -> (step < 0)%Q ->
-  time_of_vect (linspaceQ t0 step 0 n) = None.
+  time_of_vect (linspaceQ t0 step 0 n) = TimeRejected.
 Proof.
   intros t0 step n Hn Hs. destruct (time_from_vect_linspace t0 step n Hn) as [t0' [avg [H [H1 H2]]]].
-  unfold time_of_vect. rewrite H. unfold time_init.
+  rewrite (time_of_vect_from_vect _ _ _ _ H). unfold time_init.
   destruct (Qle_bool 0 avg) eqn:E; [|reflexivity]. apply Qle_bool_iff in E. rewrite H2 in E. lra.
 Qed.
 
-(* whatever is accepted: start = the first stored sample exactly, num = the number of
-   stored samples, step >= 0 *)
-Lemma time_of_vect_sound : forall t t0 dt n, time_of_vect t = Some (t0, dt, n) ->
+(* whatever is accepted with a step that is a number: start = the first stored sample
+   exactly, num = the number of stored samples, step >= 0, at least two samples *)
+Lemma time_of_vect_sound : forall t t0 dt n, time_of_vect t = TimeAxis (t0, dt, n) ->
   n = List.length t /\ (0 <= dt)%Q /\ 2 <= n /\ exists rest, t = t0 :: rest.
 Proof.
-  intros t t0 dt n H. unfold time_of_vect in H.
-  destruct (time_from_vect t) as [[[a b] c]|] eqn:E; [|discriminate].
-  apply time_init_Some in H. destruct H as [Hb [= <- <- <-]].
-  unfold time_from_vect in E. destruct t as [|x [|y t]]; try discriminate.
+  intros t t0 dt n H. destruct t as [|x [|y t]]; try discriminate H.
+  unfold time_of_vect in H.
+  destruct (time_from_vect (x :: y :: t)) as [[[a b] c]|] eqn:E; [|discriminate].
+  destruct (time_init a b c) as [tm|] eqn:Ei; [|discriminate]. injection H as ->.
+  apply time_init_Some in Ei. destruct Ei as [Hb [= <- <- <-]].
+  unfold time_from_vect in E.
   destruct (forallb _ _); [|discriminate]. injection E as <- <- <-.
   repeat split; [exact Hb | cbn; lia | now exists (y :: t)].
+Qed.
+
+(* ONE stored sample: Time(t0, nan, 1) - and this is the only way to get a step that is
+   not a number; NO stored sample: rejected (IndexError) *)
+Lemma time_of_vect_one : forall t0, time_of_vect [t0] = StepNaN t0.
+Proof. reflexivity. Qed.
+
+Lemma time_of_vect_nan_iff : forall t s, time_of_vect t = StepNaN s <-> t = [s].
+Proof.
+  intros t s. split; [|intros ->; reflexivity].
+  intros H. destruct t as [|x [|y t]]; [discriminate H | now injection H as -> |].
+  unfold time_of_vect in H. destruct (time_from_vect (x :: y :: t)) as [[[a b] c]|]; [|discriminate].
+  destruct (time_init a b c); discriminate.
+Qed.
+
+Lemma time_of_vect_nil : time_of_vect [] = TimeRejected.
+Proof. reflexivity. Qed.
+
+(* the outcome by the number of stored samples *)
+Lemma time_of_vect_by_length : forall t,
+  match time_of_vect t with
+  | TimeAxis (_, _, n) => 2 <= List.length t /\ n = List.length t
+  | StepNaN _ => List.length t = 1
+  | TimeRejected => List.length t <> 1
+  end.
+Proof.
+  intros t. destruct (time_of_vect t) as [[[a b] n]|s|] eqn:E.
+  - apply time_of_vect_sound in E. destruct E as [-> [_ [H _]]]. now split.
+  - apply time_of_vect_nan_iff in E. now subst.
+  - intros Hl. destruct t as [|x [|y t]]; try discriminate Hl. discriminate E.
 Qed.
 
 Lemma Forall2_map_ext : forall (A : Type) (f g : A -> Q) l,
@@ -103,7 +147,7 @@ Proof.
   - unfold time_samples, linspaceQ. now rewrite map_length, seq_length.
 Qed.
 
-Lemma shift_time_loaded : forall t tm delay, time_of_vect t = Some tm ->
+Lemma shift_time_loaded : forall t tm delay, time_of_vect t = TimeAxis tm ->
   exists tm', shift_time tm delay = Some tm' /\ snd tm' = snd tm /\ snd (fst tm') = snd (fst tm).
 Proof.
   intros t [[t0 dt] n] delay H. apply time_of_vect_sound in H. destruct H as [_ [Hd _]].
@@ -165,53 +209,177 @@ Proof.
   split; intros H l Hl; specialize (H l Hl); now apply Nat.eqb_eq.
 Qed.
 
+(* [repair] numpy broadcasting of the corner vectors: a corner vector of ONE value is
+   accepted and used for every element *)
+Lemma nth_repeat_lt : forall (x d : Q) n i, i < n -> nth i (repeat x n) d = x.
+Proof.
+  intros x d. induction n as [|n IH]; intros i Hi; [lia|].
+  destruct i as [|i]; cbn; [reflexivity | apply IH; lia].
+Qed.
+
+Lemma bget_full : forall l i, List.length l <> 1 -> bget l i = nth i l 0%Q.
+Proof. intros [|x [|y l]] i H; cbn in *; try reflexivity. congruence. Qed.
+
+Lemma bget_one : forall x i, bget [x] i = x.
+Proof. reflexivity. Qed.
+
+Lemma bcast_Some_iff : forall n l,
+  (exists l', bcast n l = Some l') <-> List.length l = n \/ List.length l = 1.
+Proof.
+  intros n l. unfold bcast. destruct (Nat.eqb_spec (List.length l) n) as [E|E].
+  - split; [now left | eauto].
+  - destruct l as [|x [|y l]]; cbn in *.
+    + split; [intros [l' H]; discriminate | intros [H|H]; [congruence | discriminate]].
+    + split; [now right | eauto].
+    + split; [intros [l' H]; discriminate | intros [H|H]; [congruence | discriminate]].
+Qed.
+
+Lemma bcast_spec : forall n l l', n <> 1 -> bcast n l = Some l' ->
+  List.length l' = n /\ forall i, i < n -> nth i l' 0%Q = bget l i.
+Proof.
+  intros n l l' Hn H. unfold bcast in H. destruct (Nat.eqb_spec (List.length l) n) as [E|E].
+  - injection H as <-. split; [exact E|]. intros i _. symmetry. apply bget_full. congruence.
+  - destruct l as [|x [|y l]]; try discriminate H. injection H as <-.
+    split; [apply repeat_length|]. intros i Hi. now rewrite nth_repeat_lt.
+Qed.
+
+Lemma el_dims_Some_iff : forall c p1 p2,
+  (exists d, el_dims c p1 p2 = Some d) <->
+  (List.length p1 = List.length c \/ List.length p1 = 1) /\
+  (List.length p2 = List.length c \/ List.length p2 = 1).
+Proof.
+  intros c p1 p2. rewrite <- !bcast_Some_iff. unfold el_dims.
+  destruct (bcast (List.length c) p1) as [a|], (bcast (List.length c) p2) as [b|]; split.
+  all: try (intros [d H]; discriminate H).
+  all: try (intros [[a' Ha] [b' Hb]]; discriminate).
+  - intros _. eauto.
+  - intros _. eauto.
+Qed.
+
+Lemma el_dims_spec : forall c p1 p2 d, List.length c <> 1 -> el_dims c p1 p2 = Some d ->
+  List.length d = List.length c /\
+  forall i, i < List.length c -> nth i d 0%Q = el_dim (nth i c 0%Q) (bget p1 i) (bget p2 i).
+Proof.
+  intros c p1 p2 d Hn H. unfold el_dims in H.
+  destruct (bcast (List.length c) p1) as [a|] eqn:Ea; [|discriminate].
+  destruct (bcast (List.length c) p2) as [b|] eqn:Eb; [|discriminate]. injection H as <-.
+  destruct (bcast_spec _ _ _ Hn Ea) as [La Na]. destruct (bcast_spec _ _ _ Hn Eb) as [Lb Nb].
+  split.
+  - rewrite map_length. now apply zip3_length.
+  - intros i Hi. rewrite (nth_map_lt _ _ _ _ i (0, 0, 0)%Q) by (rewrite zip3_length; assumption).
+    rewrite zip3_nth by assumption. now rewrite Na, Nb.
+Qed.
+
 (* element positions unchanged (element i is (el_xc[i], el_yc[i], el_zc[i])), dimensions
-   from the stored corners of the SAME element and the same axis, frequency unchanged *)
+   from the stored corners of the SAME element and the same axis (bget: entry i of the
+   stored corner vector, or its single entry when it has one), frequency unchanged.
+   [repair: the conclusion `2 <= n` became `n <> 1` (the library accepts empty vectors: a
+   probe without elements) and `nth i x1 0` became `bget x1 i`; see load_probe_spec_full for
+   the old statement] *)
 Lemma load_probe_spec : forall xc yc zc x1 y1 z1 x2 y2 z2 freq p,
   load_probe xc yc zc x1 y1 z1 x2 y2 z2 freq = Some p ->
   let n := List.length xc in
-  2 <= n /\ bp_frequency p = freq /\
+  n <> 1 /\ bp_frequency p = freq /\
   bp_locations p = zip3 xc yc zc /\
   List.length (bp_locations p) = n /\ List.length (bp_dimensions p) = n /\
   forall i, i < n ->
     nth i (bp_locations p) (0, 0, 0)%Q = (nth i xc 0%Q, nth i yc 0%Q, nth i zc 0%Q) /\
     nth i (bp_dimensions p) (0, 0, 0)%Q =
+      (el_dim (nth i xc 0%Q) (bget x1 i) (bget x2 i),
+       el_dim (nth i yc 0%Q) (bget y1 i) (bget y2 i),
+       el_dim (nth i zc 0%Q) (bget z1 i) (bget z2 i)).
+Proof.
+  intros xc yc zc x1 y1 z1 x2 y2 z2 freq p H. cbn zeta. unfold load_probe in H.
+  destruct (Nat.eqb_spec (List.length xc) 1) as [En|En]; [discriminate|]. cbn [negb andb] in H.
+  destruct (same_len _ _) eqn:Es; [|discriminate].
+  apply same_len_spec in Es.
+  repeat match goal with H : Forall _ (_ :: _) |- _ => inversion H; clear H; subst end.
+  destruct (el_dims xc x1 x2) as [dx|] eqn:Ex; [|discriminate].
+  destruct (el_dims yc y1 y2) as [dy|] eqn:Ey; [|discriminate].
+  destruct (el_dims zc z1 z2) as [dz|] eqn:Ez; [|discriminate]. injection H as <-.
+  cbn [bp_frequency bp_locations bp_dimensions].
+  destruct (el_dims_spec _ _ _ _ En Ex) as [Lx Nx].
+  assert (Eny : List.length yc <> 1) by congruence.
+  assert (Enz : List.length zc <> 1) by congruence.
+  destruct (el_dims_spec _ _ _ _ Eny Ey) as [Ly Ny].
+  destruct (el_dims_spec _ _ _ _ Enz Ez) as [Lz Nz].
+  repeat split; try assumption.
+  - now apply zip3_length.
+  - rewrite zip3_length; congruence.
+  - now apply zip3_nth.
+  - rewrite zip3_nth by congruence.
+    rewrite Nx by assumption. rewrite Ny by congruence. rewrite Nz by congruence. reflexivity.
+Qed.
+
+(* the statement as it was before the repair: when the nine vectors all have n values (no
+   broadcasting), entry i of the dimensions comes from entry i of each corner vector *)
+Lemma load_probe_spec_full : forall xc yc zc x1 y1 z1 x2 y2 z2 freq p,
+  load_probe xc yc zc x1 y1 z1 x2 y2 z2 freq = Some p ->
+  Forall (fun l => List.length l = List.length xc) [x1; y1; z1; x2; y2; z2] ->
+  forall i, i < List.length xc ->
+    nth i (bp_dimensions p) (0, 0, 0)%Q =
       (el_dim (nth i xc 0%Q) (nth i x1 0%Q) (nth i x2 0%Q),
        el_dim (nth i yc 0%Q) (nth i y1 0%Q) (nth i y2 0%Q),
        el_dim (nth i zc 0%Q) (nth i z1 0%Q) (nth i z2 0%Q)).
 Proof.
-  intros xc yc zc x1 y1 z1 x2 y2 z2 freq p H. cbn zeta. unfold load_probe in H.
-  destruct (Nat.leb 2 (List.length xc)) eqn:En; [|discriminate]. apply Nat.leb_le in En.
-  destruct (same_len _ _) eqn:Es; [|discriminate]. cbn [andb] in H. injection H as <-.
-  apply same_len_spec in Es.
+  intros xc yc zc x1 y1 z1 x2 y2 z2 freq p H Hl i Hi.
+  destruct (load_probe_spec _ _ _ _ _ _ _ _ _ _ _ H) as [Hn [_ [_ [_ [_ Hd]]]]].
+  destruct (Hd i Hi) as [_ ->].
   repeat match goal with H : Forall _ (_ :: _) |- _ => inversion H; clear H; subst end.
-  cbn [bp_frequency bp_locations bp_dimensions].
-  assert (Hd : forall c a b : list Q, List.length a = List.length c -> List.length b = List.length c ->
-             List.length (map (fun t : Q * Q * Q => let '(c0, a0, b0) := t in el_dim c0 a0 b0) (zip3 c a b))
-             = List.length c).
-  { intros c a b Ha Hb. rewrite map_length. now apply zip3_length. }
-  assert (Hn : forall (c a b : list Q) i, List.length a = List.length c -> List.length b = List.length c ->
-             i < List.length c ->
-             nth i (map (fun t : Q * Q * Q => let '(c0, a0, b0) := t in el_dim c0 a0 b0) (zip3 c a b)) 0%Q
-             = el_dim (nth i c 0%Q) (nth i a 0%Q) (nth i b 0%Q)).
-  { intros c a b i Ha Hb Hi.
-    rewrite (nth_map_lt _ _ _ _ i (0, 0, 0)%Q) by (rewrite zip3_length; assumption).
-    now rewrite zip3_nth. }
-  repeat split; try assumption.
-  - now apply zip3_length.
-  - rewrite zip3_length; rewrite ?Hd; try reflexivity; try congruence.
-  - now apply zip3_nth.
-  - rewrite zip3_nth; rewrite ?Hd; try congruence.
-    rewrite !Hn; try congruence; reflexivity.
+  rewrite !bget_full by congruence. reflexivity.
 Qed.
 
-Lemma load_probe_accepts : forall xc yc zc x1 y1 z1 x2 y2 z2 freq,
-  2 <= List.length xc ->
-  Forall (fun l => List.length l = List.length xc) [yc; zc; x1; y1; z1; x2; y2; z2] ->
-  exists p, load_probe xc yc zc x1 y1 z1 x2 y2 z2 freq = Some p.
+(* exactly when the nine vectors are accepted *)
+Lemma load_probe_accepts_iff : forall xc yc zc x1 y1 z1 x2 y2 z2 freq,
+  (exists p, load_probe xc yc zc x1 y1 z1 x2 y2 z2 freq = Some p) <->
+  List.length xc <> 1 /\
+  Forall (fun l => List.length l = List.length xc) [yc; zc] /\
+  Forall (fun l => List.length l = List.length xc \/ List.length l = 1) [x1; y1; z1; x2; y2; z2].
 Proof.
-  intros xc yc zc x1 y1 z1 x2 y2 z2 freq Hn Hl. unfold load_probe.
-  apply Nat.leb_le in Hn. rewrite Hn. apply same_len_spec in Hl. rewrite Hl. cbn [andb]. eauto.
+  intros xc yc zc x1 y1 z1 x2 y2 z2 freq. unfold load_probe.
+  destruct (Nat.eqb_spec (List.length xc) 1) as [En|En]; cbn [negb andb].
+  { split; [intros [p H]; discriminate | intros [H _]; contradiction]. }
+  destruct (same_len (List.length xc) [yc; zc]) eqn:Es.
+  2: { split; [intros [p H]; discriminate|]. intros [_ [H _]]. apply same_len_spec in H. congruence. }
+  apply same_len_spec in Es. pose proof Es as Es'.
+  inversion Es' as [|? ? Ly Es'']; subst. inversion Es'' as [|? ? Lz _]; subst.
+  pose proof (el_dims_Some_iff xc x1 x2) as Ix. pose proof (el_dims_Some_iff yc y1 y2) as Iy.
+  pose proof (el_dims_Some_iff zc z1 z2) as Iz. rewrite Ly in Iy. rewrite Lz in Iz.
+  split.
+  - intros [p H].
+    destruct (el_dims xc x1 x2) as [dx|]; [|discriminate].
+    destruct (el_dims yc y1 y2) as [dy|]; [|discriminate].
+    destruct (el_dims zc z1 z2) as [dz|]; [|discriminate].
+    destruct (proj1 Ix (ex_intro _ dx eq_refl)) as [X1 X2].
+    destruct (proj1 Iy (ex_intro _ dy eq_refl)) as [Y1 Y2].
+    destruct (proj1 Iz (ex_intro _ dz eq_refl)) as [Z1 Z2].
+    split; [exact En|]. split; [exact Es|]. repeat (apply Forall_cons; [assumption|]). apply Forall_nil.
+  - intros [_ [_ Hc]].
+    repeat match goal with H : Forall _ (_ :: _) |- _ => inversion H; clear H; subst end.
+    destruct (proj2 Ix) as [dx ->]; [now split|].
+    destruct (proj2 Iy) as [dy ->]; [now split|].
+    destruct (proj2 Iz) as [dz ->]; [now split|]. eauto.
+Qed.
+
+(* [repair: `2 <= n` relaxed to `n <> 1`, each corner vector may have ONE value] *)
+Lemma load_probe_accepts : forall xc yc zc x1 y1 z1 x2 y2 z2 freq,
+  List.length xc <> 1 ->
+  Forall (fun l => List.length l = List.length xc) [yc; zc] ->
+  Forall (fun l => List.length l = List.length xc \/ List.length l = 1) [x1; y1; z1; x2; y2; z2] ->
+  exists p, load_probe xc yc zc x1 y1 z1 x2 y2 z2 freq = Some p.
+Proof. intros. apply load_probe_accepts_iff. now repeat split. Qed.
+
+(* a one-element array (all nine vectors of length 1) is rejected, and so is a centre
+   vector of one value among longer ones *)
+Lemma load_probe_one_centre_rejected : forall xc yc zc x1 y1 z1 x2 y2 z2 freq,
+  List.length xc = 1 \/ List.length yc <> List.length xc \/ List.length zc <> List.length xc ->
+  load_probe xc yc zc x1 y1 z1 x2 y2 z2 freq = None.
+Proof.
+  intros xc yc zc x1 y1 z1 x2 y2 z2 freq H.
+  destruct (load_probe xc yc zc x1 y1 z1 x2 y2 z2 freq) as [p|] eqn:E; [|reflexivity]. exfalso.
+  destruct (proj1 (load_probe_accepts_iff xc yc zc x1 y1 z1 x2 y2 z2 freq) (ex_intro _ p E)) as [H1 [H2 _]].
+  inversion H2 as [|? ? Ly H3]; subst. inversion H3 as [|? ? Lz _]; subst.
+  destruct H as [H|[H|H]]; contradiction.
 Qed.
 
 (* ------------------------------------------------------------------ *)
@@ -239,14 +407,14 @@ Section BrainFrame.
     load_frame V A time tx rx = Some fr ->
     bf_timetraces fr = load_timetraces V A /\
     bf_tx fr = load_indices tx /\ bf_rx fr = load_indices rx /\
-    time_of_vect time = Some (bf_time fr) /\
+    time_of_vect time = TimeAxis (bf_time fr) /\
     a_cols (bf_timetraces fr) = List.length time /\
     List.length (bf_tx fr) = a_rows (bf_timetraces fr) /\
     List.length (bf_rx fr) = a_rows (bf_timetraces fr) /\
     NoDup (combine (bf_tx fr) (bf_rx fr)).
   Proof.
     intros A time tx rx fr H. unfold load_frame in H.
-    destruct (time_of_vect time) as [[[t0 dt] n]|] eqn:Et; [|discriminate].
+    destruct (time_of_vect time) as [[[t0 dt] n]|s|] eqn:Et; [|discriminate|discriminate].
     destruct (_ && _) eqn:Ec in H; [|discriminate]. injection H as <-.
     repeat (apply andb_true_iff in Ec; destruct Ec as [Ec ?]).
     cbn [bf_timetraces bf_tx bf_rx bf_time].
